@@ -482,7 +482,6 @@ func init() {
 	}
 }
 
-
 // vFreeVar(f any, i int) any: the i-th captured variable of closure f (for option closures whose parameter
 // type is unexported in another package, e.g. storage.WithTTL(ttl)). Not available natively.
 func init() {
